@@ -76,6 +76,12 @@ def run(ctx):
             for version in (2, 3):
                 src = f"172.16.{rng.randrange(256)}.{rng.randrange(1, 255)}"
                 one(ctx, "fields", rng, version, device_id, port, 0xAC, False, src, src, single=rng.random() < 0.3)
+    # the same hosts answer several consecutive scans of one process: every scan reports them again
+    # (nothing learned in one discovery run may leak into the next)
+    for version in (2, 3):
+        for src in ("10.9.8.7", "10.9.8.8"):
+            for _scan in range(3):
+                one(ctx, "rescan", rng, version, rng.randrange(2 ** 48), 6444, 0xAC, False, src, src, single=(_scan == 2))
     for _ in range(100 if not thorough else 3000):
         src = f"10.0.{rng.randrange(256)}.{rng.randrange(1, 255)}"
         one(ctx, "random", rng, rng.choice([2, 3]), rng.randrange(2 ** 48), rng.randrange(1, 65536), rng.randrange(256),
